@@ -41,6 +41,15 @@ def ensure_registered():
     register_type(Tok, tok_serializer, tok_deserializer)
 
 
+class Opaque:
+    """A value that passes every per-argument serialiser that lets values through unchanged (e.g. an `Any`-typed
+    option, or any option when validation is switched off) but that no dumper (yaml / json) can represent: the failure
+    happens in the *dumper*, after the per-argument serialisation pass."""
+
+    def __repr__(self):
+        return "Opaque()"
+
+
 class E(enum.Enum):
     A = 1
     B = 2
